@@ -499,3 +499,43 @@ Definition old_silent (h : hdecl) (c : cause) : Prop :=
   is_changing c = true -> h_needs_change h = false -> forall p, h_field h = Some p ->
     value_on c (h_value h) (resolve_opt (c_old c) p) = true ->
     value_on c (h_value h) (resolve_opt (c_new c) p) = true.
+
+(* ====================================================================================== *)
+(* kopf.subhandler (kopf/on.py) and the cause its handlers see (execution.invoke_handler)  *)
+(* ====================================================================================== *)
+(* _warn_incompatible_parent_with_oldnew + the isinstance check: the decorator raises TypeError unless the parent is a
+   ChangingHandler, and old=/new= are only accepted under @on.update (reason UPDATE) or @on.field-like parents
+   (reason None and not initial) *)
+Definition sub_allowed (parent : hdecl) (old new : crit) : bool :=
+  h_is_changing parent &&
+  match old, new with
+  | CNone, CNone => true
+  | _, _ => match h_reason parent with
+            | Some RUpdate => true
+            | None => negb (h_initial parent)
+            | _ => false
+            end
+  end.
+
+(* the ChangingHandler the decorator builds: id = parent.id/id (no field suffix), selector None, reason/initial/deleted/
+   requires_finalizer None, field_needs_change INHERITED from the parent, everything else from the arguments *)
+Definition sub_decorate (parent : hdecl) (id : string) (fn : nat)
+    (labels annotations : list (string * crit)) (when : option (cause -> bool))
+    (field : option path) (value old new : crit) : hdecl :=
+  {| h_id := h_id parent ++ "/" ++ id; h_fn := fn; h_class := HChanging; h_selector := None;
+     h_labels := labels; h_annotations := annotations; h_when := when;
+     h_field := field; h_value := value; h_old := old; h_new := new;
+     h_reason := None; h_initial := false; h_deleted := false; h_requires_finalizer := false;
+     h_needs_change := h_needs_change parent |}.
+
+(* ResourceHandler.adjust_cause: under a parent with a field the sub-handlers see old/new narrowed to that field
+   (dicts.resolve(..., None): an absent field and a null one both become Python None) *)
+Definition narrow (o : option json) (p : path) : option json :=
+  match resolve_opt o p with Some JNull => None | r => r end.
+Definition adjust_cause (parent : hdecl) (c : cause) : cause :=
+  match h_field parent, c_class c with
+  | Some p, CChanging =>
+      {| c_class := c_class c; c_resource := c_resource c; c_body := c_body c;
+         c_old := narrow (c_old c) p; c_new := narrow (c_new c) p; c_reason := c_reason c; c_initial := c_initial c |}
+  | _, _ => c
+  end.
